@@ -1,5 +1,112 @@
-"""C06 placeholder"""
+"""C06 Compiled predicates are indistinguishable from the interpreter — structural clauses."""
+from qe import *
+import k9
+import guards
+
+CLAIMS = ("R1 the two evaluators use the same logic class for AND/OR: if the interpreter is Kleene the compiled path must decline nullable AND/OR programs (or not admit them); if the interpreter is null-strict the compiled validity (AND of leaf validities) agrees; "
+          "R2 no primitive IEEE comparison (<,<=,>,>=,==,!=) on f64 operands is executed inside the compiled evaluator, because the interpreter's arrow kernels compare floats in the total order (NaN greatest, -0.0 < +0.0); "
+          "R3 the compiler refuses what the interpreter would coerce: a comparison instruction is pushed only past `ta != tb => None`, and evaluate() downcasts a column only past the `data_type() != dt => None` test; "
+          "R4 QE_COMPILE is read only in compilation_enabled(), and every CompiledPredicate::compile call is dominated by it.")
+NOT_DECIDED = "bit-equality of masks for every batch (a value property); arithmetic result equality."
+
+CE = "physical::compiled_expr"
+
+
+def compiled_logic_class(F):
+    """'declines-nullable-logic' when evaluate() has a None return guarded by a test on Instr::And/Or presence and nulls,
+    'no-logic' when the compiler never emits And/Or, else 'null-strict'"""
+    comp = F.fn(CE + "::Compiler::boolean")
+    emits = any(rv[0] == "agg" and rv[1].startswith("adt:" + CE + "::Instr::") and rv[1].rsplit("::", 1)[-1] in ("And", "Or") for i, j, dst, rv, line in comp.stmts())
+    if not emits:
+        return "no-logic"
+    ev = F.fn(CE + "::CompiledPredicate::evaluate")
+    for g in F.family(ev.path):
+        for m in g.raw["matches"]:
+            for a in m["arms"]:
+                if any(pat_head(x).endswith(("Instr::And", "Instr::Or")) for x in pat_alternatives(a["pat"])):
+                    return "declines-nullable-logic"
+    return "null-strict"
+
+
 def logic_agreement(F, R, rid):
-    pass
+    import c02
+    R.rule(rid, "K6 class agreement", "interpreter logic class (strict|Kleene per site) vs compiled class")
+    sites = c02.interpreter_sites(F)
+    classes = set()
+    for key, f, calls, want in sites:
+        strict, kleene = c02.logic_class(F, calls)
+        classes.add("strict" if strict else ("kleene" if kleene else "none"))
+    cc = compiled_logic_class(F)
+    if classes == {"strict"}:
+        ok = cc in ("null-strict", "no-logic")
+    elif classes == {"kleene"}:
+        ok = cc in ("declines-nullable-logic", "no-logic")
+    else:
+        ok = False
+    R.check(ok, rid, "logic-class-agreement", f"interpreter AND/OR sites are {sorted(classes)} but the compiled path is {cc}: with compilation on and off a nullable AND/OR predicate keeps different rows", F.fn(CE + "::CompiledPredicate::evaluate").loc(), dict(interpreter=sorted(classes), compiled=cc))
+
+
 def run(F, R):
-    pass
+    logic_agreement(F, R, "C06.R1")
+    R.rule("C06.R2", "K5/K6 comparison class", "no f64 Lt/Le/Gt/Ge/Eq/Ne in compiled_expr's evaluator functions")
+    R.rule("C06.R3", "K3", "type-equality refusals dominate the Cmp push and the column downcasts")
+    R.rule("C06.R4", "K1", "QE_COMPILE read only in compilation_enabled; compile() callers dominated by it")
+    # ---- R2
+    ieee = []
+    nfun = 0
+    for g in F.in_file("src/physical/compiled_expr.rs"):
+        root = F.bodies[g.path].get("root") or g.path
+        if not (root.startswith(CE + "::CompiledPredicate::") or root.startswith(CE + "::Cmp::") or root.startswith(CE + "::f64_") or "eval" in root):
+            continue
+        nfun += 1
+        for i, j, dst, rv, line in g.stmts():
+            if rv[0] == "bin" and rv[1] in ("Lt", "Le", "Gt", "Ge", "Eq", "Ne") and rv[4] in ("f64", "f32"):
+                ieee.append((g, i, rv[1]))
+        for c in g.calls():
+            if c.name.rsplit("::", 1)[-1] in ("lt", "le", "gt", "ge", "eq", "ne", "partial_cmp") and any(t in ("f64", "&f64") for t in c.argtys):
+                ieee.append((g, c.bb, c.name.rsplit("::", 1)[-1]))
+    R.floor("C06.R2", "compiled evaluator functions examined", nfun, 3)
+    by = {}
+    for g, bb, op in ieee:
+        by.setdefault(F.bodies[g.path].get("root") or g.path, []).append((g, bb, op))
+    for root, lst in sorted(by.items()):
+        g, bb, op = lst[0]
+        R.bad("C06.R2", f"{root}:ieee-f64-compare", f"f64 values are compared with IEEE operators ({sorted({x[2] for x in lst})}) where the interpreter uses the total order: NaN and -0.0 rows are kept differently with compilation on and off", g.loc(bb), dict(sites=len(lst)))
+    if not by:
+        R.ok("C06.R2", "no-ieee-f64-compare", dict(functions=nfun))
+    # ---- R3
+    comp = F.fn(CE + "::Compiler::boolean")
+    pushes = []
+    for i, j, dst, rv, line in comp.stmts():
+        if rv[0] == "agg" and rv[1].startswith("adt:" + CE + "::Instr::Cmp"):
+            pushes.append((i, rv[1].rsplit("::", 1)[-1]))
+    R.floor("C06.R3", "Cmp instruction constructions", len(pushes), 3)
+    for bb, nm in pushes:
+        gs = guards.guards_of(comp, bb)
+        ok = any(("::ne(" in cd or cd.startswith(("ne(", "Ne("))) and "DataType" in " ".join(comp.local_ty(place_local(op_place(a))) if op_place(a) else "" for a in (origin(comp, "c:" + comp.switch_info(sb)[1])[1].args if origin(comp, "c:" + comp.switch_info(sb)[1])[0] == "call" else [])) and v is False for sb, cd, v in gs if comp.switch_info(sb)[0] == "bool" and comp.switch_info(sb)[1])
+        R.check(ok, "C06.R3", f"boolean:{nm}:same-type-guard", "a typed comparison is compiled without refusing operands of different arrow types (the interpreter would coerce them)", comp.loc(bb), dict(guards=[cd[:50] for s, cd, v in gs][-5:]))
+    ev = F.fn(CE + "::CompiledPredicate::evaluate")
+    dcs = [c for c in ev.calls() if c.name.rsplit("::", 1)[-1] == "downcast_ref"]
+    R.floor("C06.R3", "column downcasts in evaluate", len(dcs), 3)
+    badd = []
+    for c in dcs:
+        gs = guards.guards_of(ev, c.bb)
+        if not any("data_type(" in cd and ("ne(" in cd or "Ne(" in cd) and v is False for sb, cd, v in gs):
+            badd.append(c)
+    R.check(not badd, "C06.R3", "evaluate:dtype-guard-before-downcast", "a batch column is downcast without the `data_type() != dt => None` refusal", ev.loc(badd[0].bb) if badd else ev.loc(), dict(downcasts=len(dcs)))
+    # ---- R4
+    envs = [c for c in F.callers_matching(lambda n: n in ("std::env::var", "std::env::var_os")) if any("QE_COMPILE" in l[0] for l in c.fn.raw["lits"])]
+    R.floor("C06.R4", "reads of QE_COMPILE", len(envs), 1)
+    for c in envs:
+        root = F.bodies[c.fn.path].get("root") or c.fn.path
+        R.check(root == CE + "::compilation_enabled", "C06.R4", f"QE_COMPILE-read:{root}", "QE_COMPILE is consulted outside compilation_enabled()", c.fn.loc(c.bb), nontrivial=False)
+    cp = F.fn(CE + "::CompiledPredicate::compile")
+    work = [c for c in cp.calls() if c.name.startswith(CE + "::Compiler::")]
+    R.floor("C06.R4", "compiler invocations inside CompiledPredicate::compile", len(work), 1)
+    for c in work:
+        gs = guards.guards_of(cp, c.bb)
+        ok = any(CE + "::compilation_enabled(" in cd and ((cd.startswith("Not(") and v is False) or (not cd.startswith("Not(") and v is True)) for sb, cd, v in gs)
+        R.check(ok, "C06.R4", f"compile:{c.name.rsplit('::', 1)[-1]}#{[x for x in work if x.name == c.name].index(c)}:gated", "the compiler runs without consulting compilation_enabled(): QE_COMPILE=0 would not restore the interpreter", cp.loc(c.bb), dict(guards=[cd[:60] for s, cd, v in gs][-3:]))
+    # nobody constructs a CompiledPredicate except compile()
+    makers = [g.path for g in F.fns_building("adt:" + CE + "::CompiledPredicate")]
+    R.check(set(makers) <= {cp.path}, "C06.R4", "CompiledPredicate:only-built-by-compile", f"CompiledPredicate is constructed in {makers}", "", nontrivial=False)
